@@ -2,6 +2,8 @@
 # run every claimed check (tier $1, default quick) and print one line each
 tier=${1:-quick}
 cd /verif
+# the library root imports every module: a name declared twice only shows here
+(cd lean && lake build 2>&1 | grep -E 'error|✖' | head -5)
 for p in $(python3 -c "import json;print(' '.join(sorted(json.load(open('checks.json')).keys())))"); do
   ./check $p --tier $tier 2>&1 | grep -E "^(OK|VIOLATION|KNOWN-FINDING)" | cut -c1-160
 done
